@@ -366,8 +366,24 @@ def run_history(res, history, mode):
             before_host = {k: plain(v) for k, v in host0.items()}
             try:
                 with opwrap.traced(w):
-                    parser().eval(prog, names, ast_names=ast_functions(), max_ops_evaluated=10000)
+                    result = parser().eval(prog, names, ast_names=ast_functions(), max_ops_evaluated=10000)
                 ok_last = True
+                # what an index assignment hands back to the host must not be the stored copy itself
+                import re as _re
+                last = prog.split(';')[-1].strip()
+                m = _re.match(r'([a-z]+)(\[[^=]*\])+ = ', last)
+                rhs = last.split(' = ', 1)[1] if ' = ' in last else ''
+                # (a right-hand side that reads the container itself hands back the container's own objects: not judged)
+                if m and isinstance(result, (list, dict, tuple)) and m.group(1) in names and not _re.search(r'\b%s\b' % m.group(1), rhs):
+                    rs, rk = set(), []
+                    reach(result, rs, rk)
+                    cs, ck = set(), []
+                    reach(names[m.group(1)], cs, ck)
+                    if rs & cs:
+                        res.violation('alias:result-of-index-assignment', 'the value eval() returns for an index assignment shares a mutable object '
+                                      'with the container that was assigned to: the host can change the stored value through it',
+                                      {'history': history, 'mode': mode, 'statement': last, 'expected': 'no sharing with the container',
+                                       'observed': 'shared mutable object'})
             except Exception:  # noqa
                 ok_last = False
             res.count('evals')
